@@ -129,6 +129,17 @@ static void check_flags(void)
 }
 
 /* loop head reached again: the step continues */
+/* ownership at the loop head (C07): a step that continues never reaches the end of the program, where the leak check sits;
+ * so the same question is asked here - once everything the loop-carried state owns (pending annotation, pending title,
+ * collected call arguments) is released, no allocation may be left.  (The run ends right after: nothing is used again.) */
+extern const void *__CPROVER_memory_leak;
+static void loop_head_ownership(void)
+{
+	if (*p_comment) free(*p_comment);
+	if (*p_opttitle) free(*p_opttitle);
+	cfgv_release_args(NULL);
+	CHECK("C07,C15", __CPROVER_memory_leak == NULL, "at the loop head nothing is allocated beyond the pending annotation, the pending title and the collected call arguments (a replaced or consumed one has been released)");
+}
 static void check_continue(void)
 {
 	cfg_opt_t *want_opt = g_so.next_cur == 1 ? &h_found : g_so.next_cur == 2 ? &h_added : g_so.next_cur == 3 ? NULL : (in_cur_null ? NULL : &h_cur);
@@ -148,6 +159,7 @@ static void check_continue(void)
 		CHECK("C12,C06", g_diag == g_diag0, "a skipping step that continues delivers no diagnostic");
 		CHECK("C07,C02,C12,C15", *p_comment == NULL || __CPROVER_r_ok(*p_comment, 1), "a pending annotation is a live block (never a released one)");
 		CHECK("C01,C02,C07", inv(*p_state, *p_opt, *p_comment, *p_opttitle, *p_ignore, *p_num_values, p_funcopt), "INV: the loop invariant holds again at the loop head");
+		loop_head_ownership();
 		return;
 	}
 	CHECK("C01,C12,C04,C05,C14,C18", g_so.outcome == SP_CONT, "the parse continues exactly when the reference automaton continues");
@@ -169,6 +181,7 @@ static void check_continue(void)
 	}
 	CHECK("C07,C02,C12,C15", *p_comment == NULL || __CPROVER_r_ok(*p_comment, 1), "a pending annotation is a live block (never a released one)");
 	CHECK("C01,C02,C07", inv(*p_state, *p_opt, *p_comment, *p_opttitle, *p_ignore, *p_num_values, p_funcopt), "INV: the loop invariant holds again at the loop head");
+	loop_head_ownership();
 }
 
 /* ------------------------------------------------------------------ carriers living in the harness TU */
